@@ -91,6 +91,8 @@ def gen_cases(ctx):
                     add('bucket', 'bucket', lt, pol, mx, s)
                     if mx in (9, 64, 100):
                         add('bucket', 'bucket_moved', lt, pol, mx, s); add('bucket', 'bucket_assigned', lt, pol, mx, s)
+                    if mx == 64:
+                        add('bucket', 'bucket_static', lt, pol, mx, s)
     return cases, classes
 
 
@@ -139,10 +141,10 @@ def oracle(fn, args, r):
         x, = args
         exp = (x - 1).bit_length()
         return None if r == exp else '%s(%d) should be %d, got %d' % (fn, x, exp, r)
-    if fn in ('bucket', 'bucket_moved', 'bucket_assigned'):
+    if fn in ('bucket', 'bucket_moved', 'bucket_assigned', 'bucket_static'):
         lt, pol, mx, s = args
         if r < s:
-            return 'bucket for size %d has node size %d < size (list type %d, policy %d%s)' % (s, r, lt, pol, {'bucket': '', 'bucket_moved': ', after move construction of the list array', 'bucket_assigned': ', after move assignment of the list array'}[fn])
+            return 'bucket for size %d has node size %d < size (list type %d, policy %d%s)' % (s, r, lt, pol, {'bucket': '', 'bucket_moved': ', after move construction of the list array', 'bucket_assigned': ', after move assignment of the list array', 'bucket_static': ', list array constructed during static initialisation'}[fn])
         me = 1 if lt == 2 else 8
         if pol == 1 and r >= 2 * s and r > me:
             return 'log2 bucket for size %d has node size %d >= 2*size' % (s, r)
